@@ -75,13 +75,32 @@ type c42Case struct {
 
 var (
 	c42SrcPorts     = []string{"transfer", "transfer", "transfer", "transfer", "xfer", "ibc", "wasm.cosmos1xyz", "icahost"}
-	c42SrcChannels  = []string{"channel-0", "channel-3", "channel-9", "channel-141", "channel-18446744073709551615"}
+	c42SrcChannels  = []string{"channel-0", "channel-1", "channel-10", "channel-11", "channel-100", "channel-3", "channel-9", "channel-141", "channel-14", "channel-18446744073709551615"}
 	c42ForeignChans = []string{"channel.17", "solchan#42", "channelA01", "chan-abcdef"}
-	c42SrcClients   = []string{"07-tendermint-0", "07-tendermint-5", "08-wasm-7", "client-5", "cosmoshub-4", "10-attestations-2"}
-	c42SynthChans   = []string{"channel-9", "channel-77", "channel-18446744073709551615"}
-	c42SynthClients = []string{"07-tendermint-44", "08-wasm-1", "client-0"}
+	c42SrcClients   = []string{"07-tendermint-0", "07-tendermint-1", "07-tendermint-10", "07-tendermint-100", "07-tendermint-5", "08-wasm-7", "08-wasm-70", "client-5", "client-50", "cosmoshub-4", "10-attestations-2"}
+	c42SynthChans   = []string{"channel-9", "channel-1", "channel-10", "channel-77", "channel-18446744073709551615"}
+	c42SynthClients = []string{"07-tendermint-44", "07-tendermint-1", "07-tendermint-10", "08-wasm-1", "client-0"}
 	c42Encodings    = []string{transfertypes.EncodingJSON, transfertypes.EncodingProtobuf, transfertypes.EncodingABI}
 )
+
+// prefixSibling returns an identifier that is string-prefix related to id without being equal to
+// it: id with one or two more digits (channel-1 -> channel-10, channel-100) or, when id ends in two
+// digits, id without its last digit (channel-10 -> channel-1). A first trace hop built from it has
+// the sender's port and an id that merely STARTS WITH (or is a prefix of) the packet's source id.
+func prefixSibling(t *rapid.T, id string) string {
+	n := len(id)
+	shorter := n >= 2 && id[n-1] >= '0' && id[n-1] <= '9' && id[n-2] >= '0' && id[n-2] <= '9'
+	switch k := rapid.IntRange(0, 3).Draw(t, "sibling"); {
+	case k == 0 && shorter:
+		return id[:n-1]
+	case k == 1:
+		return id + "1"
+	case k == 2:
+		return id + "00"
+	default:
+		return id + "0"
+	}
+}
 
 func genC42(t *rapid.T) c42Case {
 	c := c42Case{}
@@ -132,6 +151,10 @@ func genC42(t *rapid.T) c42Case {
 			} else {
 				id = rapid.SampledFrom(append(append([]string{}, c42SrcChannels...), c42SrcClients...)).Draw(t, "hop-id")
 			}
+			if i == 0 && rapid.IntRange(0, 2).Draw(t, "sibling-first-hop") == 0 {
+				// first hop = the sender's port with an id that is only string-prefix related to the source id
+				port, id = c.SrcPort, prefixSibling(t, c.SrcID)
+			}
 			if i == 0 && port == c.SrcPort && id == c.SrcID {
 				continue // would read as a returning token with nothing in escrow
 			}
@@ -153,6 +176,34 @@ func genC42Known(t *rapid.T) c42Case {
 // the two receive-side shapes in which ParseDenomFromRecvPacket used to disagree with ICS-20
 // (regression cases: they must pass once the receive parser mirrors OnRecvPacket).
 func genC42RecvParser(t *rapid.T) c42Case {
+	if rapid.IntRange(0, 2).Draw(t, "prefix-shape") == 0 {
+		// a foreign token whose FIRST hop has the sender's port and an id that only starts with (or is
+		// a prefix of) the packet's source id: ICS-20 is a sink here and mints
+		c := c42Case{Kind: 1, Base: rapid.SampledFrom([]string{"uosmo", "gamm/pool/1", "ab/cd"}).Draw(t, "base"),
+			V2: rapid.Bool().Draw(t, "v2"), SrcPort: "transfer", Our: rapid.IntRange(0, 4).Draw(t, "our"), Next: rapid.IntRange(0, 3).Draw(t, "next"), Amount: genAmount(t, "amount"), Part: 4}
+		if c.V2 {
+			c.Alias = rapid.Bool().Draw(t, "alias")
+			c.Enc = rapid.IntRange(0, 2).Draw(t, "enc")
+		}
+		if c.V2 && !c.Alias {
+			c.SrcID = rapid.SampledFrom([]string{"07-tendermint-1", "07-tendermint-10", "08-wasm-7", "client-5"}).Draw(t, "src")
+			c.Base = strings.ReplaceAll(c.Base, "/", "")
+		} else {
+			c.SrcPort = rapid.SampledFrom([]string{"transfer", "transfer", "xfer"}).Draw(t, "src-port")
+			if c.V2 {
+				c.SrcPort = "transfer"
+			}
+			c.SrcID = rapid.SampledFrom([]string{"channel-1", "channel-10", "channel-11", "channel-100", "channel-3"}).Draw(t, "src")
+		}
+		c.Trace = [][2]string{{c.SrcPort, prefixSibling(t, c.SrcID)}}
+		if rapid.Bool().Draw(t, "second-hop") {
+			c.Trace = append(c.Trace, [2]string{"transfer", rapid.SampledFrom(c42SrcChannels).Draw(t, "hop2")})
+		}
+		if c.Our >= 2 {
+			c.Next = 0
+		}
+		return c
+	}
 	if rapid.Bool().Draw(t, "shape") {
 		// two-segment base with a hop-like second segment arriving as a foreign token (v1, v2, alias)
 		c := c42Case{Kind: 1, Base: rapid.SampledFrom([]string{"gamm/pool-1", "a/channel-7", "factory/07-tendermint-0", "lp/09-localhost"}).Draw(t, "base"),
@@ -659,7 +710,7 @@ func TestC42RecvParser(t *testing.T) {
 	run := runC42(t)
 	vx.Check(t, vx.Prop[c42Case]{
 		ID:   "C42",
-		Rule: "receive-side regression shapes: two-segment base with hop-like second segment arriving as a foreign token (v1/v2/alias, then unwind or forward), and a native denom returned by a counterparty whose channel id is not channel-N/{type}-N shaped; every evaluated case counts",
+		Rule: "receive-side regression shapes: two-segment base with hop-like second segment arriving as a foreign token (v1/v2/alias, then unwind or forward), a native denom returned by a counterparty whose channel id is not channel-N/{type}-N shaped, and a foreign token whose first hop has the sender's port and an id that is only string-prefix related to the source id (channel-1 vs channel-10, 07-tendermint-1 vs 07-tendermint-10); every evaluated case counts",
 		Gen:  genC42RecvParser,
 		Run: func(t rapid.TB, c c42Case, rec *vx.Case) {
 			run(t, c, rec)
